@@ -49,30 +49,37 @@ func runUpdateCase(c Case, in *Interp, ps *PlanSet, fn reflect.Value, k int, mod
 			}
 			g := safeCall2(fn, args)
 			res.Calls++
-			// model
-			want := reflect.New(tt.Elem())
-			want.Elem().Set(Clone(pre))
+			// model: two acceptable targets (nil nillable sources assigned / left untouched)
 			var merr error
 			mpanic := false
-			func() {
-				defer func() {
-					if r := recover(); r != nil {
-						if _, ok := r.(*ModelPanic); !ok {
-							panic(r)
+			eval := func(nilKeeps bool) reflect.Value {
+				want := reflect.New(tt.Elem())
+				want.Elem().Set(Clone(pre))
+				func() {
+					defer func() {
+						if r := recover(); r != nil {
+							if _, ok := r.(*ModelPanic); !ok {
+								panic(r)
+							}
+							mpanic = true
 						}
-						mpanic = true
+					}()
+					s := Clone(modelSrc)
+					if s.Kind() == reflect.Ptr {
+						if s.IsNil() {
+							return
+						}
+						s = s.Elem()
 					}
+					in.depth = 0
+					in.NilKeeps = nilKeeps
+					merr = in.structInto(ps.Root.In, s, want.Elem())
+					in.NilKeeps = false
 				}()
-				s := modelSrc
-				if s.Kind() == reflect.Ptr {
-					if s.IsNil() {
-						return
-					}
-					s = s.Elem()
-				}
-				in.depth = 0
-				merr = in.structInto(ps.Root.In, s, want.Elem())
-			}()
+				return want
+			}
+			want := eval(false)
+			want2 := eval(true)
 			switch {
 			case g.panicked && !mpanic:
 				res.Seen["panic"]++
@@ -91,8 +98,8 @@ func runUpdateCase(c Case, in *Interp, ps *PlanSet, fn reflect.Value, k int, mod
 				continue
 			}
 			res.Seen["ok"]++
-			if d := Equal(tgt.Elem(), want.Elem()); d != "" {
-				fail(Fail{Kind: "update-value", Value: shown, Got: Show(tgt.Elem()), Want: Show(want.Elem()), Detail: d})
+			if d := eqEither(tgt.Elem(), want.Elem(), want2.Elem(), ""); d != "" {
+				fail(Fail{Kind: "update-value", Value: shown, Got: Show(tgt.Elem()), Want: Show(want.Elem()) + " (or, for nil pointer/slice/map sources, unchanged: " + Show(want2.Elem()) + ")", Detail: d})
 			}
 			if d := Equal(sv, srcBefore); d != "" {
 				fail(Fail{Kind: "source-mutated", Value: shown, Detail: d})
@@ -118,4 +125,30 @@ func safeCall2(fn reflect.Value, args []reflect.Value) (r callResult) {
 		r.err, _ = outs[0].Interface().(error)
 	}
 	return r
+}
+
+// eqEither compares got field-wise with two acceptable values.
+func eqEither(got, a, b reflect.Value, path string) string {
+	if got.Kind() == reflect.Struct {
+		if !got.CanAddr() {
+			got = addressable(got)
+		}
+		if !a.CanAddr() {
+			a = addressable(a)
+		}
+		if !b.CanAddr() {
+			b = addressable(b)
+		}
+		for i := 0; i < got.NumField(); i++ {
+			if d := eqEither(rw(got.Field(i)), rw(a.Field(i)), rw(b.Field(i)), path+"."+got.Type().Field(i).Name); d != "" {
+				return d
+			}
+		}
+		return ""
+	}
+	d := Equal(got, a)
+	if d == "" || Equal(got, b) == "" {
+		return ""
+	}
+	return path + d
 }
